@@ -13,7 +13,9 @@ from lib import S, observe_call
 GEN = ["SchemaMakerParams"]
 RULE = ("documents generated from the keyword grammar (depth <= 5, width <= 5, <= 40 nodes; anchors before or after "
         "their references, self/ancestor references, reference chains; dangling references injected; maxItemsDependsOn "
-        "before/after; overlapping keywords, empty oneOf / empty $ref, missing type, arrays without items; title-only, "
+        "with the counter declared before the table or inside its items (stream depends), after it / the table itself / "
+        "an enclosing sub-schema (stream depends-forward), nowhere (stream depends-dangling), any of these (depends-mixed), "
+        "the bound max_ref_to compared; overlapping keywords, empty oneOf / empty $ref, missing type, arrays without items; title-only, "
         "duplicate-title, title-equals-anchor and duplicate-anchor nodes), each with a generated instance and 6-10 paths "
         "(valid, negative, out of range, wrong step kind, missing names); exhaustive single-node keyword dispatch "
         "(720 keyword combinations x anchor before/after). Non-trivial = document with more than one node (branch != 0); "
@@ -179,8 +181,9 @@ class Gen:
     drawn, so a reference may point backward, forward, at an ancestor or at itself."""
 
     def __init__(self, rng, max_nodes=40, p_anchor=0.45, p_title=0.3, p_dangling=0.0, p_depends=0.0,
-                 p_noise=0.3, title_pool=None, dup_anchor=False, atoms_only_int=False):
+                 p_noise=0.3, title_pool=None, dup_anchor=False, atoms_only_int=False, depends_mode="mixed"):
         self.rng, self.max_nodes = rng, max_nodes
+        self.depends_mode = depends_mode
         self.p_anchor, self.p_title, self.p_dangling, self.p_depends, self.p_noise = p_anchor, p_title, p_dangling, p_depends, p_noise
         self.title_pool, self.dup_anchor = title_pool, dup_anchor
         self.count = 0
@@ -253,9 +256,59 @@ class Gen:
                 n["$ref"] = "#" + rng.choice(names)
             else:
                 n["$ref"] = "#" + rng.choice(["NOWHERE", "A99", "a", "T9"])
+        closed = closed_anchors(root)
         for n in self.depends:
-            n["maxItemsDependsOn"]["$ref"] = "#" + (rng.choice(names) if names and rng.random() < 0.9 else "NOWHERE")
+            # counters by place: closed when the table closes (before it, or inside its items) / the others
+            # (after the table, the table itself, a sub-schema enclosing it) / no sub-schema at all
+            before = closed[id(n)]
+            later = [a for a in names if a not in before]
+            mode = self.depends_mode
+            if mode == "declared":
+                pick = rng.choice(before) if before else None
+            elif mode == "forward":
+                pick = rng.choice(later) if later and rng.random() < 0.8 else (rng.choice(before) if before else None)
+            elif mode == "dangling":
+                pick = "NOWHERE" if rng.random() < 0.5 or not before else rng.choice(before)
+            else:
+                pick = rng.choice(names) if names and rng.random() < 0.9 else "NOWHERE"
+            if pick is None:
+                del n["maxItemsDependsOn"]
+            else:
+                n["maxItemsDependsOn"]["$ref"] = "#" + pick
         return root
+
+
+def closed_anchors(root):
+    """generator-side helper (documents drawn by Gen only): for every array node, by id, the $anchor names of
+    the sub-schemas that are closed when the array closes, reading the document from the top"""
+    seen, out = [], {}
+
+    def go(d):
+        if d.get("oneOf"):
+            for x in d["oneOf"]:
+                go(x)
+        elif "$ref" in d:
+            pass
+        elif d.get("type") == "array":
+            go(d["items"])
+            out[id(d)] = list(seen)
+        elif d.get("type") == "object":
+            for v in d.get("properties", {}).values():
+                go(v)
+        if "$anchor" in d:
+            seen.append(d["$anchor"])
+
+    go(root)
+    return out
+
+
+def depends_doc(rng, **kw):
+    """a Gen document that holds at least one maxItemsDependsOn (a bounded number of draws)"""
+    for _ in range(40):
+        doc = Gen(rng, **kw).document()
+        if "maxItemsDependsOn" in json.dumps(doc):
+            break
+    return doc
 
 
 def find_anchor(doc, name):
@@ -372,11 +425,41 @@ HANDMADE = [
     # dangling
     {"type": "object", "properties": {"x": {"$ref": "#NOWHERE"}}},
     {"type": "array", "items": {"$ref": "#NOWHERE"}},
-    # maxItemsDependsOn before / after
+    # maxItemsDependsOn: counter before / after the table
     {"type": "object", "properties": {"n": {"type": "integer", "$anchor": "N"},
                                       "v": {"type": "array", "items": {"type": "string"}, "maxItemsDependsOn": {"$ref": "#N"}}}},
     {"type": "object", "properties": {"v": {"type": "array", "items": {"type": "string"}, "maxItemsDependsOn": {"$ref": "#N"}},
                                       "n": {"type": "integer", "$anchor": "N"}}},
+    # ... inside the table's items, the table itself, an enclosing sub-schema, nowhere
+    {"type": "array", "items": {"type": "integer", "$anchor": "N"}, "maxItemsDependsOn": {"$ref": "#N"}},
+    {"type": "array", "$anchor": "T", "items": {"type": "integer"}, "maxItemsDependsOn": {"$ref": "#T"}},
+    {"type": "object", "$anchor": "R", "properties": {"v": {"type": "array", "items": {"type": "string"}, "maxItemsDependsOn": {"$ref": "#R"}}}},
+    {"type": "object", "properties": {"n": {"type": "integer", "$anchor": "N"},
+                                      "v": {"type": "array", "items": {"type": "string"}, "maxItemsDependsOn": {"$ref": "#Q"}}}},
+    # ... the shape COBOL emits: counter, table of groups, a nested table on the same counter, a table of
+    # references to a group declared later, a counter in an earlier oneOf alternative / an earlier group
+    {"type": "object", "title": "REC", "$anchor": "REC", "properties": {
+        "C": {"type": "integer", "$anchor": "C", "title": "C"},
+        "T": {"type": "array", "title": "T", "$anchor": "T", "maxItemsDependsOn": {"$ref": "#C"},
+              "items": {"type": "object", "properties": {
+                  "F": {"type": "string", "$anchor": "F"},
+                  "U": {"type": "array", "items": {"type": "integer"}, "maxItemsDependsOn": {"$ref": "#C"}}}}}}},
+    {"type": "object", "properties": {
+        "n": {"type": "integer", "$anchor": "N"},
+        "v": {"type": "array", "items": {"$ref": "#G"}, "maxItemsDependsOn": {"$ref": "#N"}},
+        "g": {"type": "object", "$anchor": "G", "properties": {"k": {"type": "integer"}}}}},
+    {"type": "object", "properties": {
+        "u": {"oneOf": [{"type": "object", "properties": {"n": {"type": "integer", "$anchor": "N"}}}, {"type": "string"}]},
+        "w": {"type": "object", "properties": {"v": {"type": "array", "items": {"type": "number"}, "maxItemsDependsOn": {"$ref": "#N"}}}}}},
+    # ... the counter named through a $ref node bearing the anchor; two tables, the second one's counter after it
+    {"type": "object", "properties": {
+        "n": {"type": "integer", "$anchor": "N"}, "m": {"$ref": "#N", "$anchor": "M"},
+        "v": {"type": "array", "items": {"type": "string"}, "maxItemsDependsOn": {"$ref": "#M"}}}},
+    {"type": "object", "properties": {
+        "n": {"type": "integer", "$anchor": "N"},
+        "v": {"type": "array", "items": {"type": "string"}, "maxItemsDependsOn": {"$ref": "#N"}},
+        "w": {"type": "array", "items": {"type": "string"}, "maxItemsDependsOn": {"$ref": "#K"}},
+        "k": {"type": "integer", "$anchor": "K"}}},
     # title captures the reference (known finding) - before / after / dangling-by-anchor
     {"type": "object", "properties": {"a": {"type": "integer", "$anchor": "X"}, "t": {"type": "string", "title": "X"}, "r": {"$ref": "#X"}}},
     {"type": "object", "properties": {"r": {"$ref": "#X"}, "a": {"type": "integer", "$anchor": "X"}, "t": {"type": "string", "title": "X"}}},
@@ -430,9 +513,24 @@ def inputs(ctx):
     for _ in range(400 * scale):
         g = Gen(rng, max_nodes=rng.choice([6, 15, 40]), p_dangling=rng.choice([0.1, 0.5]))
         yield "dangling", case(rng, g.document())
-    for _ in range(300 * scale):
-        g = Gen(rng, max_nodes=rng.choice([6, 15, 40]), p_depends=0.6)
-        yield "depends", case(rng, g.document())
+    # maxItemsDependsOn.  "depends" is a clean stream: every counter is declared when its table closes (it stands
+    # before the table or inside its items), nothing dangles - it stays clear of the trigger of finding 2
+    for _ in range(400 * scale):
+        doc = depends_doc(rng, max_nodes=rng.choice([8, 15, 40]), p_depends=0.7, p_anchor=0.6, depends_mode="declared")
+        yield "depends", case(rng, doc)
+    # counters declared after the table, the table itself or an enclosing sub-schema (finding 2), some declared
+    for _ in range(250 * scale):
+        doc = depends_doc(rng, max_nodes=rng.choice([8, 15, 40]), p_depends=0.7, p_anchor=0.6, depends_mode="forward")
+        yield "depends-forward", case(rng, doc)
+    # counters that no sub-schema bears
+    for _ in range(150 * scale):
+        doc = depends_doc(rng, max_nodes=rng.choice([8, 15, 40]), p_depends=0.6, depends_mode="dangling",
+                          p_dangling=rng.choice([0.0, 0.0, 0.2]))
+        yield "depends-dangling", case(rng, doc)
+    # any anchor of the document or none, with dangling $refs
+    for _ in range(200 * scale):
+        doc = depends_doc(rng, max_nodes=rng.choice([8, 15, 40]), p_depends=0.6, p_dangling=rng.choice([0.0, 0.1]))
+        yield "depends-mixed", case(rng, doc)
     # titles drawn from the anchor name space: title-only, duplicate titles, title = anchor (known finding)
     for _ in range(300 * scale):
         g = Gen(rng, max_nodes=rng.choice([6, 15, 30]), p_title=0.5, p_anchor=0.35,
